@@ -143,7 +143,9 @@ ConcatReqK(bs) == IF bs = <<>> THEN <<>>
                   ELSE (IF "required" \in DOMAIN Head(bs) THEN Head(bs).required ELSE <<>>) \o ConcatReqK(Tail(bs))
 MergedSchema(env, branches) ==
   LET rs == [i \in DOMAIN branches |-> ResolveB(env, branches[i])] IN
+  LET withAddl == SelectSeq(rs, LAMBDA b : "additionalProperties" \in DOMAIN b) IN
   ("type" :> <<"object">>) @@ ("properties" :> MergePropsK(<<>>, rs)) @@ ("required" :> ConcatReqK(rs))
+  @@ (IF withAddl = <<>> THEN <<>> ELSE "additionalProperties" :> withAddl[1].additionalProperties)   \* first wins
 
 (* ---------- numbers ---------- *)
 \* All comparisons on quarter units (U = 4: h stands for h/4; exact in float64 and in decimal text).  "big" landmark numerals are ordered by value: sg*2^e + o with
@@ -253,6 +255,9 @@ TypedOnly(env, s, d, D) ==
                              IF Main(ps) = "object" /\ ~Has(ps, "ref")
                              THEN Valid(env, ps, ObjVal(d, k), D, "field", NoLim) # Rej
                              ELSE TypedOnly(env, ps, ObjVal(d, k), D)
+                          \* a map type (no declared properties, typed additionalProperties): every member by type
+                          /\ (Props(s) = <<>> /\ Has(s, "additionalProperties") /\ s.additionalProperties.k = "s" =>
+                                \A k \in ObjKeys(d) : TypedOnly(env, s.additionalProperties.s, ObjVal(d, k), D))
       [] OTHER -> TRUE
 
 RECURSIVE ValidObj(_, _, _, _)
